@@ -38,13 +38,14 @@ theorem keyOK_of_B {key : Path} (h : keyOKB key = true) : KeyOK key := by
 
 /-- The class for which the unchanged backend is crash-atomic (decidable). Excluded, and shown to fail in
     Open/C11.lean: overwriting an existing key (remove, then link), attributes written by name after the
-    publication (tags; legal hold and retention alike), the sidecar metadata store, DeleteObject in a versioned
+    publication (tags before the repairs; the legal hold — `rq.hold` — still), the sidecar metadata store, DeleteObject in a versioned
     bucket (archive copy, then two attribute writes on the live file). -/
 def SafeB (cfg : Cfg) (rq : Req) (fs : FS) : Bool :=
   !cfg.sidecar && keyOKB rq.key &&
   match rq.op with
-  | .put => (fs.get (objPath cfg rq.key)).isNone && !rq.tags
-  | .copy => (fs.get (objPath cfg rq.key)).isNone && (readAttr cfg fs (objPath cfg rq.src) "X-Amz-Tagging").isNone
+  | .put => (fs.get (objPath cfg rq.key)).isNone && (!rq.tags || cfg.tagsFirst) && (!rq.hold || cfg.holdFirst)
+  | .copy => (fs.get (objPath cfg rq.key)).isNone &&
+             ((readAttr cfg fs (objPath cfg rq.src) "X-Amz-Tagging").isNone || cfg.copyTagsFirst) && (!rq.hold || cfg.holdFirst)
   | .delete => !(cfg.verDir && cfg.vstatus != .off)
   | .uploadPart => true
   | .complete => (fs.get (objPath cfg rq.key)).isNone
@@ -57,17 +58,18 @@ theorem safe_one_commit (cfg : Cfg) (rq : Req) (fs : FS) (h : SafeB cfg rq fs = 
   have hk := keyOK_of_B hkB
   unfold plan
   split <;> rename_i hopEq <;> rw [hopEq] at hop <;>
-    simp only [Bool.and_eq_true, Option.isNone_iff_eq_none, Bool.not_eq_eq_eq_not, Bool.not_true] at hop
+    simp only [Bool.and_eq_true, Bool.or_eq_true, Option.isNone_iff_eq_none, Bool.not_eq_eq_eq_not, Bool.not_true] at hop
   · -- put
-    exact countP_planPutSpec_new cfg hs rq rq.key hk fs _ (by simp [putSpecOf, hop.2]) hop.1
+    refine countP_planPutSpec_new cfg hs rq rq.key hk fs _ ?_ hop.1.1
+    rcases hop.1.2 with h2 | h2 <;> rcases hop.2 with h3 | h3 <;> simp [putSpecOf, holdAttr, h2, h3]
   · -- copy
     unfold planCopy
     dsimp only
     split
     · split
       · simp
-      · refine countP_planPutSpec_new cfg hs rq rq.key hk fs _ ?_ hop.1
-        simp [hop.2]
+      · refine countP_planPutSpec_new cfg hs rq rq.key hk fs _ ?_ hop.1.1
+        rcases hop.1.2 with h2 | h2 <;> rcases hop.2 with h3 | h3 <;> simp [holdAttr, h2, h3]
     · simp
   · exact countP_planDelete_unversioned cfg hs (by simpa using hop) rq hk fs
   · exact Nat.le_trans (Nat.le_of_eq (countP_zero_of_silent (silent_of_aside (aside_planUploadPart cfg hs rq hk fs) hk))) (Nat.zero_le 1)
@@ -87,12 +89,18 @@ theorem listing_atomic_partial (cfg : Cfg) (rq : Req) (fs : FS) (n : Nat) (h : S
   listed_atomic_of_countP cfg rq.key _ fs (safe_one_commit cfg rq fs h) n
 
 /-- The class that is crash-atomic once docs/C11-fix-1.diff is applied (`cfg.atomicReplace`): overwrites included.
-    With docs/C11-fix-2.diff (`cfg.tagsFirst`) tagged PutObject requests are included as well. -/
+    With docs/C11-fix-2.diff (`cfg.tagsFirst`) tagged PutObject requests are included as well, with
+    docs/C05-fix-4.diff (`cfg.copyTagsFirst`) CopyObject from a tagged source too. With all three switches on — the
+    backend as committed — the class is: xattr store, every PutObject / CopyObject / UploadPart /
+    CompleteMultipartUpload (tags and legal hold requested at CreateMultipartUpload included: they are written onto
+    the temp file), DeleteObject in an unversioned bucket — EXCEPT PutObject / CopyObject with
+    `x-amz-object-lock-legal-hold` (`rq.hold`): PutObjectLegalHold still runs by name after the publication
+    (Open.C11.hold_after_publication) unless docs/C11-fix-3.diff is applied (`cfg.holdFirst`). -/
 def SafeFixedB (cfg : Cfg) (rq : Req) (fs : FS) : Bool :=
   cfg.atomicReplace && !cfg.sidecar && keyOKB rq.key &&
   match rq.op with
-  | .put => !rq.tags || cfg.tagsFirst
-  | .copy => (readAttr cfg fs (objPath cfg rq.src) "X-Amz-Tagging").isNone
+  | .put => (!rq.tags || cfg.tagsFirst) && (!rq.hold || cfg.holdFirst)
+  | .copy => ((readAttr cfg fs (objPath cfg rq.src) "X-Amz-Tagging").isNone || cfg.copyTagsFirst) && (!rq.hold || cfg.holdFirst)
   | .delete => !(cfg.verDir && cfg.vstatus != .off)
   | .uploadPart => true
   | .complete => true
@@ -104,16 +112,16 @@ theorem fixed_one_commit (cfg : Cfg) (rq : Req) (fs : FS) (h : SafeFixedB cfg rq
   have hk := keyOK_of_B hkB
   unfold plan
   split <;> rename_i hopEq <;> rw [hopEq] at hop <;>
-    simp only [Bool.or_eq_true, Option.isNone_iff_eq_none, Bool.not_eq_eq_eq_not, Bool.not_true] at hop
+    simp only [Bool.and_eq_true, Bool.or_eq_true, Option.isNone_iff_eq_none, Bool.not_eq_eq_eq_not, Bool.not_true] at hop
   · refine countP_planPutSpec_fixed cfg hs har rq rq.key hk fs _ ?_
-    rcases hop with hop | hop <;> simp [putSpecOf, hop]
+    rcases hop.1 with h1 | h1 <;> rcases hop.2 with h3 | h3 <;> simp [putSpecOf, holdAttr, h1, h3]
   · unfold planCopy
     dsimp only
     split
     · split
       · simp
       · refine countP_planPutSpec_fixed cfg hs har rq rq.key hk fs _ ?_
-        simp [hop]
+        rcases hop.1 with h1 | h1 <;> rcases hop.2 with h3 | h3 <;> simp [holdAttr, h1, h3]
     · simp
   · exact countP_planDelete_unversioned cfg hs (by simpa using hop) rq hk fs
   · exact Nat.le_trans (Nat.le_of_eq (countP_zero_of_silent (silent_of_aside (aside_planUploadPart cfg hs rq hk fs) hk))) (Nat.zero_le 1)
@@ -200,44 +208,23 @@ theorem leftovers_harmless (cfg : Cfg) (rq : Req) (fs : FS) (n : Nat) (h : SafeB
     (xattr store): from ANY state in which the bucket exists and the key's name is not a directory — whatever earlier
     crashes left behind in `.sgwtmp`, in the versioning directory, as parent directories or as a half-replaced
     object — a completed PutObject leaves the key reading the request's body with the request's ETag (and tags, when
-    supplied): the (re-)issued request takes full effect. (`tmp` is the name os.CreateTemp picks: fresh.) -/
-theorem put_effect (cfg : Cfg) (hs : cfg.sidecar = false) (hv : cfg.verDir = false) (har : cfg.atomicReplace = false)
+    supplied; and the legal hold, when asked for): the (re-)issued request takes full effect. Holds for every
+    variant of the backend the model knows — the publication by rename-over as committed, and the earlier
+    remove-then-link. (`tmp` is the name os.CreateTemp / the replace link picks: fresh.) -/
+theorem put_effect (cfg : Cfg) (hs : cfg.sidecar = false) (hv : cfg.verDir = false)
     (rq : Req) (hk : KeyOK rq.key) (fs : FS)
     (hb : fs.isDir (bucketPath cfg) = true) (hnd : fs.isDir (objPath cfg rq.key) = false)
     (hfresh : fs.get (tmpDir cfg ++ [rq.tmp]) = none) :
     ∃ v, view cfg (run (planPut cfg rq fs) fs) rq.key = some v ∧ v.data = rq.data ∧ v.etag = some "new" ∧
-      (rq.tags = true → v.tags = some "new") := by
-  have hget := get_planPut cfg hs har rq hk fs hb hnd hfresh
+      (rq.tags = true → v.tags = some "new") ∧ (rq.hold = true → v.hold = some "new") := by
+  have hget := get_planPut cfg hs rq hk fs hb hnd hfresh
   have hattr : ∀ a, readAttr cfg (run (planPut cfg rq fs) fs) (objPath cfg rq.key) a = aget (foldAttrs [] (putAttrs cfg rq)) a := by
     intro a; unfold readAttr; simp [hs, hget, Node.attrs]
-  have hetag : aget (foldAttrs [] (putAttrs cfg rq)) "etag" = some "new" := by
-    have hsplit : putAttrs cfg rq = (rq.metaKeys.map (fun k => ("X-Amz-Meta." ++ k, "new")) ++ [("checksums", "new")]) ++ ("etag", "new") ::
-        ((if rq.ctype then [("content-type", "new")] else []) ++
-         (if cfg.verDir && cfg.vstatus == .enabled then [("version-id", rq.newVid)] else []) ++
-         (putSpecOf cfg rq).tailAttrs ++ (putSpecOf cfg rq).postAttrs) := by
-      simp [putAttrs, putSpecOf, List.append_assoc]
-    rw [hsplit]
-    apply aget_foldAttrs_last
-    intro kv hkv
-    simp only [putSpecOf, List.mem_append] at hkv
-    rcases hkv with ((hkv | hkv) | hkv) | hkv
-    · split at hkv
-      · simp only [List.mem_singleton] at hkv; subst hkv; decide
-      · cases hkv
-    · split at hkv
-      · simp only [List.mem_singleton] at hkv; subst hkv
-        show "version-id" ≠ "etag"; decide
-      · cases hkv
-    · split at hkv
-      · split at hkv
-        · simp only [List.mem_singleton] at hkv; subst hkv; decide
-        · cases hkv
-      · cases hkv
-    · split at hkv
-      · cases hkv
-      · split at hkv
-        · simp only [List.mem_singleton] at hkv; subst hkv; decide
-        · cases hkv
+  have hlast : ∀ k, aget (foldAttrs [] (putAttrs cfg rq)) k = lastVal (putAttrs cfg rq) k := by
+    intro k; rw [aget_foldAttrs]; simp [aget]
+  have hetag : lastVal (putAttrs cfg rq) "etag" = some "new" := by
+    cases hh : rq.hold <;> cases ht : rq.tags <;> cases hc : rq.ctype <;> cases hf : cfg.tagsFirst <;> cases hhf : cfg.holdFirst <;>
+      simp [putAttrs, putSpecOf, holdAttr, lastVal, hv, hh, ht, hc, hf, hhf, List.reverse_append, List.find?]
   have hview : view cfg (run (planPut cfg rq fs) fs) rq.key = some
       { data := rq.data
         etag := (readAttr cfg (run (planPut cfg rq fs) fs) (objPath cfg rq.key) "etag").filter (· != "")
@@ -245,21 +232,23 @@ theorem put_effect (cfg : Cfg) (hs : cfg.sidecar = false) (hv : cfg.verDir = fal
         umeta := (listAttrs cfg (run (planPut cfg rq fs) fs) (objPath cfg rq.key)).filter isMetaAttr |>.filterMap
           (fun a => (readAttr cfg (run (planPut cfg rq fs) fs) (objPath cfg rq.key) a).map (fun v => (a, v)))
         vid := none
-        tags := readAttr cfg (run (planPut cfg rq fs) fs) (objPath cfg rq.key) "X-Amz-Tagging" } := by
+        tags := readAttr cfg (run (planPut cfg rq fs) fs) (objPath cfg rq.key) "X-Amz-Tagging"
+        hold := (readAttr cfg (run (planPut cfg rq fs) fs) (objPath cfg rq.key) "object-legal-hold").filter (· != "") } := by
     unfold view
     simp only [hget, hv, Bool.false_and, Bool.false_eq_true, ↓reduceIte]
-  refine ⟨_, hview, rfl, ?_, ?_⟩
+  refine ⟨_, hview, rfl, ?_, ?_, ?_⟩
   · show (readAttr cfg _ _ "etag").filter _ = _
-    rw [hattr, hetag]; rfl
+    rw [hattr, hlast, hetag]; rfl
   · intro ht
     show readAttr cfg _ _ "X-Amz-Tagging" = _
-    rw [hattr]
-    have hsplit : putAttrs cfg rq = ((putSpecOf cfg rq).attrs ++
-        (if cfg.verDir && cfg.vstatus == .enabled then [("version-id", rq.newVid)] else [])) ++ ("X-Amz-Tagging", "new") :: [] := by
-      simp only [putAttrs, putSpecOf, ht, ↓reduceIte]
-      cases cfg.tagsFirst <;> simp
-    rw [hsplit]
-    exact aget_foldAttrs_last _ _ _ _ _ (by intro kv hkv; cases hkv)
+    rw [hattr, hlast]
+    cases hh : rq.hold <;> cases hf : cfg.tagsFirst <;> cases hhf : cfg.holdFirst <;>
+      simp [putAttrs, putSpecOf, holdAttr, lastVal, hv, hh, ht, hf, hhf, List.reverse_append, List.find?]
+  · intro hh
+    show (readAttr cfg _ _ "object-legal-hold").filter _ = _
+    rw [hattr, hlast]
+    cases hhf : cfg.holdFirst <;> cases hf : cfg.tagsFirst <;> cases ht : rq.tags <;>
+      simp [putAttrs, putSpecOf, holdAttr, lastVal, hv, hh, hhf, hf, ht, List.reverse_append, List.find?]
 
 /-! ### further full statements the unchanged backend violates (negations in Open/C11.lean; no `_partial` is
     proved for them: where they hold is established by the crash enumeration on the real code only) -/
@@ -314,5 +303,26 @@ example : SafeFixedB { atomicReplace := true } { op := .put, key := ["zz"] } fs0
 example : (plan { atomicReplace := true } { op := .put, key := ["zz"] } fs0).length = 7 := by decide
 example : (plan { atomicReplace := true } { op := .put, key := ["zz"] } fs0).contains (.unlink ["R", "b", "zz"]) = false := by decide
 example : (plan {} { op := .delete, key := ["zz"] } fs0).length = 1 := by decide
+-- the backend as committed (all three repairs): a copy from a TAGGED source over an existing TAGGED object is in the
+-- safe class; its plan writes the tags onto the temp file and ends with the rename over the object
+def nowCfg : Cfg := { atomicReplace := true, tagsFirst := true, copyTagsFirst := true }
+def fsSrc : FS := { ents := [(["R", "b"], .dir []), (["R", "b", ".sgwtmp"], .dir []),
+                             (["R", "b", "src"], .file "new" [("etag", "e"), ("X-Amz-Tagging", "tg")]),
+                             (["R", "b", "k"], .file "old" [("etag", "old"), ("X-Amz-Tagging", "told")])] }
+def cpK : Req := { op := .copy, key := ["k"], src := ["src"] }
+example : SafeFixedB nowCfg cpK fsSrc = true := by decide
+-- (the copy plan itself inspects attribute names with String.isPrefixOf, which `decide` does not evaluate: the plan's
+-- shape is pinned by the harness' step conformance; a tagged PutObject over the same object shows the shape)
+def putT : Req := { op := .put, key := ["k"], tags := true }
+example : SafeFixedB nowCfg putT fsSrc = true := by decide
+example : (plan nowCfg putT fsSrc).getLast? = some (.rename ["R", "b", ".sgwtmp", "TMP"] ["R", "b", "k"]) := by decide
+example : (plan nowCfg putT fsSrc).contains (.setx (.anon 0) "X-Amz-Tagging" "new") = true := by decide
+example : (view nowCfg (run (plan nowCfg putT fsSrc) fsSrc) ["k"]).map (fun v => (v.data, v.tags)) = some ("new", some "new") := by decide
+-- a PutObject asking for a legal hold is outside the class (PutObjectLegalHold follows the publication) unless
+-- docs/C11-fix-3.diff is applied
+example : SafeFixedB nowCfg { putT with hold := true } fsSrc = false := by decide
+example : SafeFixedB { nowCfg with holdFirst := true } { putT with hold := true } fsSrc = true := by decide
+-- without the CopyObject repair the same request is outside the class (tags follow the publication)
+example : SafeFixedB { nowCfg with copyTagsFirst := false } cpK fsSrc = false := by decide
 
 end Vgw.Props.C11
